@@ -8,6 +8,6 @@ CONSTANTS
   ImgNames = {"ext"}
   IdPool = {"rId1", "rId3", "rId40"}
   NamePool = {"image0.png", "image2.png"}
-INVARIANTS Inv_All Inv_ShapeWellFormed
+INVARIANTS Inv_All Inv_DetectParts Inv_ShapeWellFormed
 PROPERTIES Act_Frame
 CHECK_DEADLOCK FALSE
